@@ -1,0 +1,17 @@
+//go:build verif
+
+package verifhooks
+
+import (
+	"github.com/sourcegraph/zoekt/index"
+	"github.com/sourcegraph/zoekt/internal/archive"
+)
+
+// C15: re-exports of internal/archive.
+
+type C15ArchiveOptions = archive.Options
+type C15Member = archive.VerifMember
+
+func C15ArchiveIndex(opts archive.Options, bopts index.Options) error { return archive.Index(opts, bopts) }
+func C15StripComponents(path string, count int) string             { return archive.VerifStripComponents(path, count) }
+func C15Members(path string) ([]archive.VerifMember, error)        { return archive.VerifMembers(path) }
